@@ -148,6 +148,19 @@ impl<T: Write + Read + Seek> E57Writer<T> {
             &self.images,
             &self.extensions,
         )?;
+
+        // Strings and URLs are written into the XML as they are. XML cannot carry most control
+        // characters and the two non-characters U+FFFE and U+FFFF, such a file could not be opened.
+        let storable = |c: char| {
+            matches!(c, '\t' | '\n' | '\r' | '\u{20}'..='\u{D7FF}' | '\u{E000}'..='\u{FFFD}' | '\u{10000}'..='\u{10FFFF}')
+        };
+        if let Some(c) = xml.chars().find(|c| !storable(*c)) {
+            Error::invalid(format!(
+                "A string contains the character U+{:04X} which cannot be stored in XML",
+                c as u32
+            ))?
+        }
+
         let xml = transformer(xml)?;
         let xml_bytes = xml.as_bytes();
         let xml_length = xml_bytes.len();
